@@ -72,3 +72,17 @@ void h_parseStringInplace(void) {
   }
   CANARY();
 }
+
+/* ---- parseStringInplace, second phase: the inline block classification (verbatim fragment gen/parseStringInplace.classify.inc) ---- */
+void h_classify(void) {
+  __CPROVER_havoc_object(in_buf);
+  uint8_t *src = malloc(VEC_LEN); __CPROVER_assume(src != NULL);      /* read extent: exactly VEC_LEN bytes */
+  for (int i = 0; i < VEC_LEN; i++) src[i] = in_buf[i];
+  size_t k; __CPROVER_assume(k < VEC_LEN); in_k = k;
+  StringBlock block;
+#include "gen/parseStringInplace.classify.inc"
+  VASSERT(BIT(block.bs_bits, k) == (src[k] == '\\'), "C05.classify.bs: (second phase) backslash mask bit i iff byte i is a backslash");
+  VASSERT(BIT(block.quote_bits, k) == (src[k] == '"'), "C05.classify.quote: (second phase) quote mask bit i iff byte i is a quote");
+  VASSERT(BIT(block.unescaped_bits, k) == (src[k] < 0x20), "C05.classify.ctrl: (second phase) control mask bit i iff byte i < 0x20, for every lane of the vector");
+  CANARY();
+}
